@@ -219,7 +219,6 @@ func isByteSliceOrString(t types.Type) bool {
 	return false
 }
 
-
 // impliesGE: the branch condition cond having the given outcome implies a >= b (signed integers).
 func impliesGE(cond ssa.Value, outcome bool, a, b ssa.Value) bool {
 	bo, ok := cond.(*ssa.BinOp)
